@@ -254,7 +254,7 @@ def ret_decl(r):
     if k == "ptr_scalar":
         return "%s *" % r["T"], " +deref(scalar)"
     if k == "arr_ptr":
-        return "%s *" % r["T"], " +dimension(%s)+deref(%s)%s%s" % (r["len"], r["deref"], "+owner(caller)" if r.get("owner") == "caller" else "",
+        return "%s *" % r["T"], " +dimension(%s)+deref(%s)%s%s" % (",".join(r["dims"]) if r.get("dims") else r["len"], r["deref"], "+owner(caller)" if r.get("owner") == "caller" else "",
                                                                   "+free_pattern(%s)" % r["free_pattern"] if r.get("free_pattern") else "")
     if k == "str_ptr_own":
         return "const std::string *", " +owner(caller)"
@@ -311,7 +311,14 @@ def library_yaml(lib):
             e = dict({"decl": func_decl(f)}, **f.get("yaml", {}))
             if f.get("extern_c") and lib["language"] == "c++":
                 e["options"] = dict(e.get("options") or {}, C_extern_C=True)
-            decls.append(e)
+            if f.get("ns"):
+                blk = next((b for b in decls if b["decl"] == "namespace %s" % f["ns"]), None)
+                if blk is None:
+                    blk = {"decl": "namespace %s" % f["ns"], "declarations": []}
+                    decls.append(blk)
+                blk["declarations"].append(e)
+            else:
+                decls.append(e)
     d = {"library": lib["name"], "cxx_header": lib["name"] + (".hpp" if lib["language"] == "c++" else ".h"),
          "language": lib["language"], "options": dict(lib.get("options") or {})}
     if lib.get("format"):
@@ -478,14 +485,18 @@ def impl_function(f, lang, qual=""):
     elif r["kind"] == "arr_ptr":
         _, lf, ff = arr_fns(r["T"])
         ct = c_type(r["T"], lang)
-        lines.append("    long vfN = 1 + vf_out_len(%s);" % dr)
+        if r.get("dims"):
+            lines.append("    long vfN = %s;   /* extents are expressions of the arguments */" % " * ".join("(long)(%s)" % x for x in r["dims"]))
+        else:
+            lines.append("    long vfN = 1 + vf_out_len(%s);" % dr)
         if r.get("owner") == "caller":
             lines.append("    %s *vfR = (%s *) malloc(vfN * sizeof(%s)); vf_own(vfR);   /* caller owns; released with free() */" % (ct, ct, ct))
         else:
             lines.append("    static %s *vfR = NULL;   /* library-owned buffer, allocated once, reused by every call */" % ct)
-            lines.append("    if (vfR == NULL) vfR = (%s *) malloc(8 * sizeof(%s));" % (ct, ct))
+            lines.append("    if (vfR == NULL) vfR = (%s *) malloc(%d * sizeof(%s));" % (ct, 512 if r.get("dims") else 8, ct))
         lines.append('    %s(vfR, vfN, %s); %s("ret", vfR, vfN);' % (ff, dr, lf))
-        lines.append("    *%s = (int) vfN;" % r["len"])
+        if not r.get("dims"):
+            lines.append("    *%s = (int) vfN;" % r["len"])
         lines.append("    vf_end();")
         lines.append("    return vfR;")
     elif r["kind"] == "str_ptr_own":
@@ -592,7 +603,8 @@ def library_sources(lib):
             if f.get("template"):
                 h.append("template<typename ArgType> " + func_decl(f, cxx_only=True) + ";")
             else:
-                h.append(('extern "C" ' if f.get("extern_c") and lang == "c++" else "") + func_decl(f, cxx_only=True) + ";")
+                d_ = ('extern "C" ' if f.get("extern_c") and lang == "c++" else "") + func_decl(f, cxx_only=True) + ";"
+                h.append("namespace %s { %s }" % (f["ns"], d_) if f.get("ns") else d_)
     if lang == "c":
         h.append("#ifdef __cplusplus\n}\n#endif")
     for n in reversed(ns):
@@ -624,6 +636,8 @@ def library_sources(lib):
         body = impl_function(f, lang)
         if f.get("extern_c") and lang == "c++":
             body[0] = 'extern "C" ' + body[0]
+        if f.get("ns"):
+            body = ["namespace %s {" % f["ns"]] + body + ["}"]
         c.extend(body)
         c.append("")
     for n in reversed(ns):
@@ -740,6 +754,12 @@ def model_call(f, args, this_serial=None):
     elif r["kind"] == "str_ptr_own":
         ret = ostr(dr, 40)
         send["ret"] = repr_str(ret)
+    elif r["kind"] == "arr_ptr" and r.get("dims"):
+        cnt = 1
+        for x in r["dims"]:
+            cnt *= int(eval(x, {}, dict(args)))
+        ret = [out_scalar(sub(dr, 1000 + i), r["T"]) for i in range(cnt)]
+        send["ret"] = repr_array(ret, r["T"])
     elif r["kind"] in ("arr_ptr", "vec_val"):
         cnt = out_len(dr) + (1 if r["kind"] == "arr_ptr" else 0)
         ret = [out_scalar(sub(dr, 1000 + i), r["T"]) for i in range(cnt)]
